@@ -209,6 +209,27 @@ theorem code_main_fields_keep_tokens (fuel : Nat) (sd : Go.SessData) (v : Go.Str
   exact ⟨getTok_mainSet accessSide accessSide_ok fuel _ sd v ha hac, getTok_mainSet accessSide accessSide_ok fuel _ sd v ha hac,
     getTok_mainSet accessSide accessSide_ok fuel _ sd v ha hac⟩
 
+open Oidc.Generated Oidc.CodeRefine in
+/-- session.go `expireAccessTokenChunks(nil)` as translated: it terminates at the first index the request has no chunk cookie for, and
+    afterwards every chunk session of the ID token that the request carried has no values left and `MaxAge = −1` — the next `Save`
+    deletes exactly those cookies; nothing outside the ID token's chunk sessions is touched -/
+theorem code_expireAccessTokenChunks (sd : Go.SessData) (fuel N : Nat) (hN : N < fuel)
+    (hold : ∀ j : Nat, j < N → chunkIsNew Code.accessTokenCookie sd j = false) (hnew : chunkIsNew Code.accessTokenCookie sd N = true) :
+    ∃ sd', Code.SessionData_expireAccessTokenChunks fuel sd false = some sd' ∧
+      (∀ j : Nat, j < N → (Go.regGet sd'.reg (Go.chunkName Code.accessTokenCookie j)).Values = [] ∧
+        (Go.regGet sd'.reg (Go.chunkName Code.accessTokenCookie j)).MaxAge = -1) ∧
+      Frame Code.accessTokenCookie sd sd' := by
+  obtain ⟨sd1, h1, hpost⟩ := expireLoop_post Code.accessTokenCookie (fun _ => true) (fun _ => rfl) N 0 sd fuel
+    (fun j hj => by simpa using hold j hj) (by simpa using hnew) hN
+  obtain ⟨sd2, h2, hfr⟩ := expireLoop Code.accessTokenCookie (fun _ => true) (fun _ => rfl) N 0 sd fuel
+    (fun j hj => by simpa using hold j hj) (by simpa using hnew) hN
+  rw [h1] at h2
+  simp only [Option.some.injEq, Go.Ctl.next.injEq, Prod.mk.injEq] at h2
+  obtain ⟨_, rfl⟩ := h2
+  refine ⟨sd1, by rw [expireAccess_eq, h1], ?_, hfr⟩
+  intro j hj
+  simpa using hpost j hj
+
 /-- a state that meets the hypotheses (premises satisfiable): a request without chunk cookies, a codec that prepends one byte -/
 def exampleSD : Go.SessData :=
   ⟨true, [], fun _ => none, 86400, fun t => 'z' :: t, fun t => t.drop 1, ['m'],
